@@ -175,7 +175,7 @@ def unq(t):
     return t.replace("c:", "")
 
 
-CALLEES = ["awkward_regularize_rangeslice"]
+CALLEES = ["awkward_regularize_rangeslice", "quick_sort", "quick_argsort", "binary_op"]
 
 
 def callee_contracts():
@@ -190,6 +190,7 @@ def callee_contracts():
 def run_function(task):
     """a function of src/cpu-kernels that is not a kernel-specification.yml symbol (helpers in kernel-utils.cpp)"""
     name, opts = task
+    which = opts.get("which", 0)
     t0 = time.time()
     res = {"symbol": name, "kernel": name, "obligations": [], "errors": [], "notes": [], "e": None, "impl": name,
            "contract": None, "unit_ok": True}
@@ -198,7 +199,10 @@ def run_function(task):
         if not fs:
             res["errors"].append("function %s not found in src/cpu-kernels" % name)
             return res
-        f = fs[0]
+        f = fs[which]
+        if len(fs) > 1:
+            name = "%s<%s>" % (name, ",".join(str(t) for t in f.get("targs", [])[:1]))
+            res["symbol"] = name
         c = REG.contract_for(f)
         res["contract"] = c.source
         u, iters = vcgen.houdini(lambda act: vcgen.Unit(f, c, KI.consts, callee_contracts(), act), timeout_ms=3000)
@@ -330,7 +334,12 @@ def run_symbols(symbols, kinds, jobs=16, functions=()):
     with ProcessPoolExecutor(jobs) as ex:
         for r in ex.map(run_symbol, tasks, chunksize=2):
             out.append(r)
-        for r in ex.map(run_function, [(f, {"kinds": kinds}) for f in functions]):
+        ftasks = []
+        for f in functions:
+            n = len([x for x in KI.by_name.get(f, []) if x.get("body") is not None])
+            for k in range(max(1, n)):     # every instantiation of a helper template is its own unit
+                ftasks.append((f, {"kinds": kinds, "which": k}))
+        for r in ex.map(run_function, ftasks):
             out.append(r)
     return out
 
